@@ -5,6 +5,7 @@ import (
 	"go/ast"
 	"go/token"
 	"go/types"
+	"sort"
 	"strings"
 
 	"golang.org/x/tools/go/cfg"
@@ -256,6 +257,7 @@ func ruleStageMachine(c *Ctx) {
 			})
 			if tailDel {
 				c.OK(name+".marker-removed", c.P.Pos(sw.End()), "the common tail removes the stage marker")
+				stageTailClosed(c, name, fd, f, sw.End(), keyObj)
 			} else {
 				c.Fail(name+".marker-removed", c.P.Pos(sw.End()), name+": the stage marker is never removed after the last stage: every restart would resume the finished operation")
 			}
@@ -635,5 +637,73 @@ func readBeforeEstablish(c *Ctx, keyBase string, fo *types.Func, st *types.Struc
 		} else {
 			c.OK(key, c.P.Pos(fd.Decl.Pos()), fmt.Sprintf("%s does not read %s before establishing it", FuncKey(fo), st.Field(j).Name()))
 		}
+	}
+}
+
+// stageTailClosed: everything the operation writes to the store is in, or before, the batch that removes the stage
+// marker. A store write made after that batch was persisted reaches disk only with some later flush: a crash in
+// between leaves a database that has no marker (so nothing resumes) and lacks the write.
+// stageTailCut: callees whose store writes are start-up normalisations repeated by every start (one reason each).
+var stageTailCut = map[string]string{
+	"pkg/core.(*HeaderHashes).init": "rebuilds the in-memory header index; what it writes (the trusted header pointer of an empty database, compacted header-hash pages) is written again by the next start-up if lost",
+}
+
+func stageTailClosed(c *Ctx, name string, fd *FuncDecl, f *FuncCFG, after token.Pos, keyObj types.Object) {
+	info := fd.Pkg.TypesInfo
+	var del, persist *ast.CallExpr
+	ast.Inspect(fd.Decl.Body, func(n ast.Node) bool {
+		call, ok := n.(*ast.CallExpr)
+		if !ok || call.Pos() <= after {
+			return true
+		}
+		cs := f.calleeSym(call)
+		if del == nil && cs == "pkg/core/storage.(*MemCachedStore).Delete" && len(call.Args) == 1 {
+			if id, ok := ast.Unparen(call.Args[0]).(*ast.Ident); ok && info.ObjectOf(id) == keyObj {
+				del = call
+			}
+		}
+		if del != nil && persist == nil && call.Pos() > del.End() && (strings.HasSuffix(cs, "(*MemCachedStore).Persist") || strings.HasSuffix(cs, "(*MemCachedStore).PersistSync") || strings.HasSuffix(cs, "(*Simple).Persist") || strings.HasSuffix(cs, "(*Simple).PersistSync")) {
+			persist = call
+		}
+		return true
+	})
+	key := name + ".tail-closed"
+	if del == nil || persist == nil {
+		c.Unclassified(key, c.P.Pos(fd.Decl.Pos()), "the tail does not persist the marker removal in a recognisable way")
+		return
+	}
+	mut := c.P.storeMutators()
+	g := c.P.MRG()
+	var bad []string
+	ast.Inspect(fd.Decl.Body, func(n ast.Node) bool {
+		call, ok := n.(*ast.CallExpr)
+		if !ok || call.Pos() <= persist.End() {
+			return true
+		}
+		d := staticCalleeDecl(c.P, info, call)
+		if d == nil {
+			return true
+		}
+		sf := c.P.SSAFunc(d.Obj)
+		if sf == nil {
+			return true
+		}
+		reach := g.Reach([]*ssa.Function{sf}, func(e *MEdge) bool {
+			_, cut := stageTailCut[FnKey(e.Callee.Fn)]
+			return cut
+		})
+		for fn := range reach {
+			if mut[fn] {
+				bad = append(bad, fmt.Sprintf("%s at %s (reaches %s)", FuncKey(d.Obj), c.P.Pos(call.Pos()), FnKey(fn)))
+				break
+			}
+		}
+		return true
+	})
+	if len(bad) > 0 {
+		sort.Strings(bad)
+		c.Fail(key, c.P.Pos(persist.Pos()), name+": store writes after the batch that removes the stage marker: "+strings.Join(bad, "; ")+" - a crash before the next flush leaves no marker to resume from and not these writes")
+	} else {
+		c.OK(key, c.P.Pos(persist.Pos()), "nothing after the marker-removing persist writes to the store")
 	}
 }
